@@ -488,6 +488,12 @@ def translator():
 
 
 def engine(seed, tier):
+    # one run at a time per (seed, tier): concurrent checks share the run through the cache
+    with Lock("sched-run-%s-%s" % (seed, tier)):
+        return _engine(seed, tier)
+
+
+def _engine(seed, tier):
     os.makedirs(os.path.join(BUILD, "cache"), exist_ok=True)
     key = "sched-%s-%s-%s-%s" % (repo_hash()[:16], verif_hash()[:16], seed, tier)
     cpath = os.path.join(BUILD, "cache", key + ".pickle")
